@@ -211,6 +211,22 @@ def run_zone_item(item):
                                                    'leaf_off': common._term_str(o['off']),
                                                    'pc': [c.sexpr()[:120] for c in lf.pc[-2:]], 'result': r})
                         s.pop()
+                    if len(out.setdefault('validate', [])) < 2 and (year == item['years'][0] or year == item['years'][-1]):
+                        # engine-vs-native validation point: a model of this leaf and the leaf's answers at that instant
+                        s.push()
+                        if str(s.check()) == 'sat':
+                            mdl = s.model()
+                            tv = mdl.eval(t, model_completion=True).as_long()
+                            tv = tv - (1 << 32) if tv >> 31 else tv
+
+                            def ev(x):
+                                if isinstance(x, int):
+                                    return x
+                                g = mdl.eval(x, model_completion=True)
+                                v_ = g.as_long()
+                                return v_ - (1 << 16) if v_ >> 15 else v_
+                            out['validate'].append({'t': tv, 'off': ev(off), 'delta': ev(delta), 'abbrev': abbrev.decode('latin1')})
+                        s.pop()
                     if out['leafdata'] is not None:
                         out['leafdata'].setdefault(year, []).append(
                             (z3.And(lf.pc).sexpr() if lf.pc else 'true', z3.simplify(off).sexpr() if not isinstance(off, int) else off,
@@ -362,6 +378,14 @@ def judge_zone_results(kc, res, scope):
             continue
         if r['unknown']:
             kc.inconclusive.append('%s: %d solver queries returned unknown' % (r['name'], r['unknown']))
+        for v in r.get('validate', []):
+            rc, obs, err = replay_query(kc, scope, r['index'], v['t'])
+            got = (obs.get('off'), obs.get('delta'), obs.get('abbrev'))
+            if rc == 0 and got == (v['off'], v['delta'], v['abbrev']):
+                kc.validated = getattr(kc, 'validated', 0) + 1
+            else:
+                kc.inconclusive.append('%s: engine and native build disagree at t=%d: engine %s, native %s' % (
+                    r['name'], v['t'], (v['off'], v['delta'], v['abbrev']), got))
         for (year, n) in r.get('dropped_transitions', []):
             kc._record('dropped-transition:%s:%d' % (r['zone'], year),
                        'basic zone %s year %d: addTransition called with the 5-entry cache full (transition silently dropped)' % (
@@ -480,7 +504,7 @@ def zone_coverage(kc, res, lem, info, names, scope, years):
     return {
         'states': max(1, sum(r['leaves'] for r in res)),
         'transitions': max(1, sum(r['steps'] for r in res)),
-        'traces_validated_against_impl': 0,
+        'traces_validated_against_impl': getattr(kc, 'validated', 0),
         'samples': samples or [{'note': 'none'}],
         'evaluations': q,
         'distinct_nontrivial': q,
